@@ -322,6 +322,66 @@ def run(ctx):
       rng = np.random.default_rng([ctx.seed, fits.NAMES.index(name), r])
       run_history(ctx, name, rng, nsets=int(rng.integers(2, 4)), length=int(rng.integers(3, 9)))
   preprocessor_history_lane(ctx)
+  # a wide data set (520 x 90, overlapping classes, 2 components): scikit-learn's PCA then uses its RANDOMIZED solver, so the
+  # 'pca' initialisation draws random numbers -- with an integer random_state two fits and a clone still agree
+  from sklearn.base import clone as _clone
+  import metric_learn as _ml
+  from metric_learn._util import _initialize_components
+  rngw = np.random.default_rng([ctx.seed, 79])
+  Xw = rngw.standard_normal((520, 90))
+  yw = rngw.integers(0, 3, size=520)
+  for seed in (0, 11):
+    ctx.count('wide_data_pca_init', 1)
+    with warnings.catch_warnings():
+      warnings.simplefilter('ignore')
+      A1 = _initialize_components(2, Xw, yw, init='pca', random_state=seed)
+      np.random.seed(12345 + seed)            # (the global generator is in another state on the second call)
+      A2 = _initialize_components(2, Xw, yw, init='pca', random_state=seed)
+    if not np.array_equal(A1, A2):
+      ctx.fail_input('history_independent', "init='pca' with an integer random_state is not reproducible on wide data (randomized PCA solver)",
+                     dict(shape=[520, 90], n_components=2, random_state=seed, data='np.random.default_rng([VERIF_SEED, 79]).standard_normal((520, 90))'),
+                     observed=float(np.abs(A1 - A2).max()))
+  for name in ('NCA', 'MLKR') if thorough else ('NCA',):
+    ctx.count('wide_data_pca_init', 1)
+    with warnings.catch_warnings():
+      warnings.simplefilter('ignore')
+      tgt = yw if name == 'NCA' else Xw[:, 0] + 0.1 * yw
+      e1 = getattr(_ml, name)(init='pca', n_components=2, max_iter=2, random_state=0).fit(Xw, tgt)
+      c1 = np.array(e1.components_)
+      np.random.seed(777)
+      c2 = np.array(e1.fit(Xw, tgt).components_)
+      c3 = np.array(_clone(e1).fit(Xw, tgt).components_)
+    if not (np.array_equal(c1, c2) and np.array_equal(c1, c3)):
+      ctx.fail_input('history_independent', "%s(init='pca', n_components=2, random_state=0) on 520 x 90 data: a second fit / a clone learns another model" % name,
+                     dict(estimator=name, shape=[520, 90]), observed=[float(np.abs(c1 - c2).max()), float(np.abs(c1 - c3).max())])
+  # what a query hands out is the caller's to modify: writing into the returned matrix / embedding changes nothing
+  for ni, name in enumerate(fits.NAMES):
+    rng = np.random.default_rng([ctx.seed, 78, ni])
+    data = fits.make_data(rng, d=int(rng.integers(2, 5)))
+    for variant in ((dict(diagonal=True),) if name in ('MMC', 'MMC_Supervised') else ()) + (dict(),):
+      kw = fits.sdml_fix_balance(name, dict(fits.base_kwargs(name, data), **variant), data)
+      ctx.count('returned_matrix_independent', 1)
+      try:
+        with warnings.catch_warnings():
+          warnings.simplefilter('ignore')
+          est = fits.fit(name, kw, data)
+          before = pickle.dumps(est)
+          L0 = np.array(est.components_)
+          M = est.get_mahalanobis_matrix()
+          M0 = M.copy()
+          M[...] = 7.0
+          T = est.transform(data['X'][:3])
+          T[...] = -3.0
+          M1 = est.get_mahalanobis_matrix()
+          same = np.array_equal(M1, M0, equal_nan=True) and np.array_equal(est.components_, L0, equal_nan=True) and pickle.dumps(est) == before
+      except ValueError:
+        continue                     # (the diagonal MMC variant may legitimately raise)
+      except Exception as ex:
+        ctx.fail_input('history_runs', '%s: get_mahalanobis_matrix / transform raises %s' % (name, type(ex).__name__), dict(estimator=name), observed=str(ex)[:200])
+        continue
+      if not same:
+        ctx.fail_input('returned_matrix_independent', '%s: writing into the matrix returned by get_mahalanobis_matrix (or into the embedding returned by transform) changes the estimator' % name,
+                       dict(estimator=name, params={k: str(v)[:30] for k, v in kw.items()}), observed=np.asarray(M1).tolist(), expected=M0.tolist())
   # pickle round trip followed by clone, for every estimator (listed finding: deprecated-alias sentinel)
   from sklearn.base import clone
   import metric_learn
